@@ -498,6 +498,8 @@ def generate(rng, tier, index):
         if plan["packages"][pname_].get("is_package") \
                 and rng.random() < 0.15:
             plan["packages"][pname_]["split"] = True
+        if pname_ in plan["components"] and rng.random() < 0.1:
+            plan["packages"][pname_]["bom"] = True
     plan["explicit_file"] = rng.random() < 0.4
     for c in plan["components"].values():
         c["explicit_file"] = rng.random() < 0.4
@@ -724,8 +726,10 @@ def execute(plan):
             "detail": "load %d: %s" % (li, detail), "plan": focused})
 
     xml = schema_xml(plan)
-    pkgfiles = {pkg_file_key(p): component_xml(c)
-                for p, c in plan["components"].items()}
+    pkgfiles = {pkg_file_key(p): (
+        # (a component saved as UTF-8 with a byte order mark: still XML)
+        "\ufeff" if (plan["packages"].get(p) or {}).get("bom") else ""
+    ) + component_xml(c) for p, c in plan["components"].items()}
     comp_type_names = {t["name"] for c in plan["components"].values()
                        for t in c["types"]}
     if plan.get("src_import"):
